@@ -10,7 +10,7 @@ tie        : (1) exhaustive kernel matrix: compare_eq/lt/le/gt/ge and `==` (Part
                  (status + record tree vs SEval) and through the public run_checks
 monitor    : the algebraic relations recomputed on the implementation's own status matrix
 """
-import json, itertools
+import json, itertools, random
 from .. import coqterm as ct
 from .. import impl, model, corr
 from ..common import *
@@ -267,6 +267,61 @@ def monitor(ctx, univ, lhs, index, status):
     return n_checked
 
 
+def regex_history(ctx):
+    """several regular-expression comparisons in ONE evaluation, in every order: what `X == /re/` answers depends on the
+    pattern and the string alone, not on the comparisons made before (pairs whose pattern + text coincide when concatenated,
+    one pattern against several strings, several patterns against one string, the same comparison repeated)"""
+    import itertools, re as _re
+    doc = {'x': 'bc', 'y': 'c', 'z': 'bbc', 'w': 'ab', 'v': 'a.b', 'e': ''}
+    clauses = [('x', 'b'), ('y', 'bb'), ('z', 'bb'), ('z', '^bc'), ('w', 'a'), ('w', '^b'), ('v', 'a.b'), ('v', 'a\\.b'), ('x', 'b'), ('e', '^$'), ('y', 'c$'), ('x', 'c$')]
+    exp = {i: (_re.search(p_.replace('\\\\', '\\'), doc[k]) is not None) for i, (k, p_) in enumerate(clauses)}
+    ops, meta = [], []
+    orders = list(itertools.permutations(range(4))) + [tuple(range(len(clauses))), tuple(reversed(range(len(clauses))))]
+    rng = random.Random(ctx.seed * 613 + 13)
+    for _ in range(12):
+        o = list(range(len(clauses))); rng.shuffle(o); orders.append(tuple(o))
+    for o in orders:
+        rules = ''.join('rule c%d {\n  %s == /%s/\n}\n' % (i, clauses[i][0], clauses[i][1]) for i in o)
+        ops.append({'op': 'eval', 'rules': rules, 'data': json.dumps(doc), 'loader': 'json', 'public': False}); meta.append((o, rules))
+        one = 'rule all {\n' + ''.join('  %s == /%s/ or %s != /%s/\n' % (clauses[i][0], clauses[i][1], clauses[i][0], clauses[i][1]) for i in o) + '}\n'
+        ops.append({'op': 'eval', 'rules': one, 'data': json.dumps(doc), 'loader': 'json', 'public': False}); meta.append((o, one))
+    res = impl.run_ops(ops, ctx.wd, 'c13rehist')          # ONE process: a cache that outlives a comparison would show
+    n = 0
+    for (o, rules), r in zip(meta, res):
+        d = r.get('res')
+        st = {}
+        if isinstance(d, dict) and isinstance(d.get('result'), list) and d['result'][0] == 'Ok':
+            for nme, s_ in e2e_rule_statuses(d['result']):
+                st[nme] = s_
+        for i in o:
+            if ('c%d' % i) in st:
+                n += 1
+                want = 'PASS' if exp[i] else 'FAIL'
+                if st['c%d' % i] != want:
+                    ctx.failing('%s == /%s/ on %r answers %s after the comparisons before it in this file; alone it is %s' % (clauses[i][0], clauses[i][1], doc[clauses[i][0]], st['c%d' % i], want),
+                                {'class': 'regex-history', 'rules': rules, 'data': json.dumps(doc)}, found=True)
+                    break
+        if 'all' in st:
+            n += 1
+            if st['all'] != 'PASS':
+                ctx.failing('a rule of lines `X == /re/ or X != /re/` is %s: some comparison answered differently the second time' % st['all'],
+                            {'class': 'regex-history', 'rules': rules, 'data': json.dumps(doc)}, found=True)
+    ctx.coverage['regex_history_comparisons'] = n
+    ctx.coverage['evaluations'] += len(ops)
+    return n
+
+
+def e2e_rule_statuses(result):
+    """(rule name, status) of the RuleCheck records directly under the file record of a hook eval result ['Ok', status, tree]"""
+    out = []
+    tree = result[2]
+    for ch in ct.L(tree[3]):
+        c = ch[2]['O'] if ch[2] else None
+        if c and c[0] == 'RuleCheck':
+            out.append((ct.S(c[1]), c[2]))
+    return out
+
+
 def run(ctx):
     ctx.build()
     pr = ctx.proofs('C13')
@@ -274,6 +329,7 @@ def run(ctx):
     texts, pvs, codes = kernel_matrix(ctx, UNIVERSE)   # the kernel matrix is always over the whole universe
     lhs, index, status = clause_matrix(ctx, univ)
     n = monitor(ctx, univ, lhs, index, status)
+    n += regex_history(ctx)
     ctx.coverage['distinct_nontrivial'] = len(set(codes)) and len(codes) + len(status)
     ctx.coverage['exhaustive'] = True
     ctx.coverage['rule'] = ('all ordered pairs of the %d-value universe x 6 kernels through the cmp hook; documents {"v": a} x '
